@@ -102,9 +102,9 @@ Ltac split3 H := apply negb_true_iff in H; apply orb_false_iff in H; destruct H 
 Lemma clean_of : forall a b c, a = false -> b = false -> c = false -> negb (a || b || c) = true.
 Proof. intros; subst; reflexivity. Qed.
 
-Lemma routes_commute_clean : forall e, clean e = true -> route_runtime e = route_ast e.
+Lemma routes_commute_clean : forall star e, clean e = true -> route_rt star e = route_ast e.
 Proof.
-  induction e using aexpr_ind'; intros G; cbn [route_runtime route_ast]; try reflexivity.
+  intros star. induction e using aexpr_ind'; intros G; cbn [route_rt route_ast]; try reflexivity.
   - (* Optional *) rewrite IHe by exact G. symmetry. apply unite_optional_comm.
   - (* Union *) f_equal. unfold clean in G. cbn in G. apply negb_true_iff in G.
     eapply map_eq_Forall; [exact H|]. now apply clean_list.
@@ -133,18 +133,13 @@ Proof.
   - (* ClassVar *) unfold clean in G. cbn in G. rewrite ?orb_true_r in G. discriminate.
 Qed.
 
-Lemma visitor_eq_runtime : forall e, has_star_unpack e = false -> route_visitor e = route_runtime e.
-Proof. intros e H. destruct e; cbn in *; try reflexivity. discriminate. Qed.
 
 Theorem routes_commute_partial : forall e, routes_guard e = true ->
   route_runtime e = route_ast e /\ route_ast (EStr e) = route_ast e /\ route_visitor e = route_ast e /\
   route_visitor (EStr e) = route_ast e /\ route_runtime (EStr e) = route_ast e.
 Proof.
-  intros e G. rewrite guard_clean in G. pose proof (routes_commute_clean e G) as H.
-  repeat split; try reflexivity; try exact H.
-  rewrite visitor_eq_runtime; [exact H|].
-  unfold clean in G. apply negb_true_iff in G. apply orb_false_iff in G. destruct G as [G _].
-  apply orb_false_iff in G. tauto.
+  intros e G. rewrite guard_clean in G.
+  repeat split; try reflexivity; apply routes_commute_clean; exact G.
 Qed.
 
 Definition routes_commute_full_statement : Prop :=
@@ -164,7 +159,7 @@ Lemma routes_refuted_star :
 Proof. repeat split; reflexivity. Qed.
 
 Lemma routes_commute_full_statement_refuted : ~ routes_commute_full_statement.
-Proof. intros H. destruct (H (EFinal (EClass 1))) as [H1 _]. cbn in H1. discriminate. Qed.
+Proof. intros H. destruct (H (EFinal (EClass 1))) as [H1 _]. vm_compute in H1. discriminate. Qed.
 
 Definition ex_annot : aexpr :=
   EOptional (EGeneric 5 [EUnion [EClass 1; EStr (ETupleFixed [EClass 2; ELiteral [1%Z; 2%Z]])];
@@ -174,7 +169,7 @@ Lemma routes_guard_inhabited :
   routes_guard ex_annot = true /\
   route_ast ex_annot =
     TUnion true [TGeneric 5 [TUnion false [TTyped 1; TSeq [(false, TTyped 2); (false, TUnion false [TLit 1; TLit 2])]];
-                             TCall [TUnion true [TTyped 1]] (TSub (TAnnot (TGeneric tuple_c [TAny]) 7))]].
+                             TCall [TUnion true [TTyped 1]] TAny]].
 Proof. split; reflexivity. Qed.
 
 (* ------------------------------------------------------------------------ *)
